@@ -1215,7 +1215,7 @@ func main() {
 			// pooled buffer, package-level state in the code under test). Run the
 			// same slice of actions again, twice: when the action fails there both
 			// times, the history-dependent failure is the finding (the policy of
-			// report.Checker.Unstable; seed C05-17 cached the member list of every
+			// report.Checker.Unstable; seed C05-16 cached the member list of every
 			// anonymous struct type under one key).
 			o := rf[u.fp].obs[0]
 			again := 0
